@@ -3067,7 +3067,10 @@ class ChannelManager:
         try:
             await channel.connect()
         except BaseException as e:
-            connection_channels.pop(source_cid, None)
+            if channel.state != ClassicChannel.State.WAIT_DISCONNECT:
+                # (a channel that is disconnecting stays registered until the peer's
+                # response closes it)
+                connection_channels.pop(source_cid, None)
             raise e
 
         return channel
